@@ -93,6 +93,8 @@ structure Cfg where
   n : Nat := 0
   a : Int := 0
   b : Int := 0
+  /-- the step of `RangeWithStepAndInterval` (with integral bounds and step); 1 for `RangeWithInterval` -/
+  step : Nat := 1
   /-- assert that buffers arrive in source order ACROSS buffers (always on, except when the driver
       classifies a rejected `BufferWithTimeOrCount` trace: see `Drivers/Timed.lean`, known finding
       "unlock-then-emit window") -/
@@ -266,19 +268,27 @@ def TimerWF (r : TimerRun) : Prop :=
 structure RangeRun where
   a : Int
   b : Int
+  /-- 1 for `RangeWithInterval`; the (integral, positive) step of `RangeWithStepAndInterval`
+      (`operator_creation.go:283-300`: `Interval(p) |> Map(a ± v·step) |> Take(⌈|b-a| / step⌉)`, as repaired) -/
+  step : Nat := 1
   p : Nat
   sub : Time
   ticks : List Time
   stop : Option (Time × Time)
   unsub : Option Time
 
-def rangeVal (a b : Int) (k : Nat) : Int := if a ≤ b then a + (k : Int) else a - (k : Int)
+def rangeVal (a b : Int) (step k : Nat) : Int := if a ≤ b then a + ((k * step : Nat) : Int) else a - ((k * step : Nat) : Int)
+
+/-- how many values the range `[a : b)` holds when walked in steps of `step`: `⌈|b-a| / step⌉` -/
+def rangeCount (a b : Int) (step : Nat) : Nat := ((b - a).natAbs + step - 1) / step
+
+theorem rangeCount_one (a b : Int) : rangeCount a b 1 = (b - a).natAbs := by simp [rangeCount]
 
 def rangeAttempts (r : RangeRun) : List Ev :=
-  let n := (r.b - r.a).natAbs
+  let n := rangeCount r.a r.b r.step
   if n = 0 then [Ev.at r.sub .complete]
   else
-    let vals := (r.ticks.take n).mapIdx (fun k t => Ev.at t (.next (rangeVal r.a r.b k)))
+    let vals := (r.ticks.take n).mapIdx (fun k t => Ev.at t (.next (rangeVal r.a r.b r.step k)))
     if n ≤ r.ticks.length then vals ++ [Ev.at ((r.ticks[n-1]?).getD 0) .complete]
     else vals ++ stopAttempt r.stop
 
